@@ -222,6 +222,14 @@ def run(case):
                         fails.append(f"cube {k} lost its own index {i} on axis {a}")
         if len(shapes_out) > 1:
             fails.append(f"cubes end with different shapes {shapes_out}")
+        if not fails:
+            # ... and every cropped cube still reports, element by element, the coordinates of its source cube
+            exact = case["fam"].startswith("probe") and not any(x != int(x) for sh in case["shifts"] for x in sh)
+            for oc in out.data:
+                lock = C.world_lockstep(oc, cubes, random.Random(case["wseed"]), exact, limit=4)
+                if lock:
+                    fails.append(lock)
+                    break
     res["obs"] = {"item": item_json(item)}
     own = []
     for c, cube in enumerate(cubes):
